@@ -1,12 +1,532 @@
-/- C07 model — placeholder until the property is built -/
+/-
+  C07 — `GradState`: the store/heap machine on which klongpy's gradient operators run.
+
+  State: store `Name → Bind` (a heap reference or a symbol), heap `Ref → Cell` (a list of
+  numbers with a kind tag and a shape), the number of evaluations of the differentiated
+  function so far and what each evaluation saw.  Numbers are integers in units of the probe
+  step (eps = 1e-6 ↦ 1).  The differentiated function is an arbitrary *script*
+  `Nat → Outcome`: what its k-th evaluation does.
+
+  Mirrors (klongpy/autograd.py, klongpy/dyads.py, klongpy/backends/torch_backend.py,
+  klongpy/interpreter.py):
+    KlongInterpreter.eval(KGSym)                 -> `evalName` (undefined name is bound to itself)
+    KlongContext.__setitem__ / __getitem__       -> `set` / `lookup`
+    np.asarray(x, dtype=float) [pinned]          -> `asF64 .pinned`  (NO copy for float64 array / float64 tensor buffer)
+    np.array(x, dtype=float)   [repaired, fix:]  -> `asF64 .repaired` (always a private copy)
+    x.copy(), np.asarray(..).flatten()           -> `copyOf`, `flattenF64` (always fresh)
+    x[idx] = orig ± eps ; x[idx] = orig          -> `writeAt`
+    numeric_grad                                 -> `numericGrad` / `gradLoop`
+    numeric_jacobian                             -> `jacNumeric` / `jacLoop`
+    TorchBackendProvider.create_grad_tensor      -> `gradTensor` (fresh float32 tensor, requires_grad)
+    compute_autograd / compute_multi_autograd / compute_jacobian -> the torch branches of `runForm`
+    grad_of_fn, eval_dyad_grad (+ .func), jacobian_of_fn / eval_sys_jacobian,
+    multi_grad_of_fn (+ call_fn_with_tensors, single_param_fn),
+    multi_jacobian_of_fn (+ single_param_fn)      -> `runForm` and `invoke`
+-/
 import Klong.Model.Wire
 namespace Klong.C07
+open Klong.Wire
+
+abbrev Name := String
+abbrev Ref := Nat
+
+/-- Python type of a numeric value: float, int, ndarray float64 / int64, torch tensor
+    float32 / float64 / int64, torch float32 tensor with `requires_grad` -/
+inductive Kind
+  | pyfloat | pyint | f64 | i64 | t32 | t64 | ti64 | t32g
+deriving DecidableEq, Repr
+
+structure Cell where
+  kind : Kind
+  shape : List Nat
+  data : List Int
+deriving DecidableEq, Repr
+
+/-- what a name is bound to: an object in the heap, or a symbol (immutable) -/
+inductive Bind
+  | ref (r : Ref)
+  | sym (n : Name)
+deriving DecidableEq, Repr
+
+abbrev Store := List (Name × Bind)
+
+def lookup : Store → Name → Option Bind
+  | [], _ => none
+  | (m, c) :: t, n => if m = n then some c else lookup t n
+
+/-- assignment: rebinding an existing name keeps its place, a new name is added -/
+def set : Store → Name → Bind → Store
+  | [], n, b => [(n, b)]
+  | (m, c) :: t, n, b => if m = n then (m, b) :: t else (m, c) :: set t n b
+
+def setMany : Store → List (Name × Bind) → Store
+  | st, [] => st
+  | st, (n, b) :: t => setMany (set st n b) t
+
+/-- `for sym, orig in originals.items(): klong[sym] = orig` with `originals` read from `orig` -/
+def restoreFrom (orig : Store) : List Name → Store → Store
+  | [], st => st
+  | n :: t, st =>
+    match lookup orig n with
+    | some b => restoreFrom orig t (set st n b)
+    | none => restoreFrom orig t st
+
+/-- an undefined name evaluates to itself and is bound to itself -/
+def bindSelf (st : Store) (n : Name) : Store :=
+  match lookup st n with
+  | none => set st n (.sym n)
+  | some _ => st
+
+def lookupAll (st : Store) : List Name → Option (List Bind)
+  | [] => some []
+  | n :: t =>
+    match lookup st n, lookupAll st t with
+    | some b, some bs => some (b :: bs)
+    | _, _ => none
+
+/-- value and kind of what a binding denotes -/
+inductive View
+  | cell (c : Cell)
+  | sym (n : Name)
+  | dangling
+deriving DecidableEq, Repr
+
+/-- what one evaluation of the function sees: its argument and every watched global -/
+structure Obs where
+  arg : Option View
+  globals : List (Name × Option View)
+deriving DecidableEq, Repr
+
+structure St where
+  store : Store
+  heap : List Cell
+  calls : Nat := 0
+  log : List Obs := []
+deriving DecidableEq, Repr
+
+def viewB (s : St) : Bind → View
+  | .sym n => .sym n
+  | .ref r =>
+    match s.heap[r]? with
+    | some c => .cell c
+    | none => .dangling
+
+def viewN (s : St) (n : Name) : Option View := (lookup s.store n).map (viewB s)
+
+/-- what one evaluation of the differentiated function does -/
+inductive Outcome
+  | scalar                                  -- returns a scalar that still depends on its inputs
+  | vector                                  -- returns a non-scalar (two components)
+  | plain                                   -- returns a plain Python number (no gradient chain)
+  | raise                                   -- raises
+  | unknown (n : Name) (selfBind : Bool)    -- refers to the unknown name `n` and fails; the
+                                            -- interpreter may bind `n` to itself on that path
+deriving DecidableEq, Repr
+
+/-- the function's behaviour may depend on how often it has been evaluated and on everything
+    it can see (its argument and the globals) -/
+abbrev Script := Nat → Obs → Outcome
+
+structure Cfg where
+  watch : List Name                 -- the globals the function can read (all logged)
+  fnUnknown : Option Name := none   -- the function operand is itself an unbound name
+
+inductive Variant | pinned | repaired
+deriving DecidableEq, Repr
+
+inductive Backend | numpy | torch
+deriving DecidableEq, Repr
+
+inductive Ret
+  | val (size : Nat) (attached : Bool)
+  | exc
+deriving DecidableEq, Repr
+
+def observe (cfg : Cfg) (arg : Option Ref) (s : St) : Obs :=
+  { arg := arg.map fun r => viewB s (.ref r)
+    globals := cfg.watch.map fun n => (n, viewN s n) }
+
+/-- one evaluation of the differentiated function (`_invoke_fn` / `klong.call`) -/
+def callF (sc : Script) (cfg : Cfg) (arg : Option Ref) (s : St) : St × Ret :=
+  match cfg.fnUnknown with
+  | some _ => (s, .exc)     -- applying a symbol gives back a symbol: never a number
+  | none =>
+    let s1 : St := { s with calls := s.calls + 1, log := s.log ++ [observe cfg arg s] }
+    match sc s.calls (observe cfg arg s) with
+    | .scalar => (s1, .val 1 true)
+    | .vector => (s1, .val 2 true)
+    | .plain => (s1, .val 1 false)
+    | .raise => (s1, .exc)
+    | .unknown n b => (if b then { s1 with store := bindSelf s1.store n } else s1, .exc)
+
+/-! ### heap primitives -/
+
+def eps : Int := 1
+
+def alloc (s : St) (c : Cell) : St × Ref :=
+  ({ s with heap := s.heap ++ [c] }, s.heap.length)
+
+/-- `x[i] = v` in place -/
+def writeAt (s : St) (x : Ref) (i : Nat) (v : Int) : St :=
+  match s.heap[x]? with
+  | some c => { s with heap := s.heap.set x { c with data := c.data.set i v } }
+  | none => s
+
+def origAt (s : St) (x : Ref) (i : Nat) : Int :=
+  match s.heap[x]? with
+  | some c => c.data.getD i 0
+  | none => 0
+
+/-- `x.copy()` of the numpy working array `x` (a float64 ndarray even when `x` is the numpy
+    view of a float64 tensor's buffer) -/
+def copyOf (s : St) (x : Ref) : St × Ref :=
+  match s.heap[x]? with
+  | some c => alloc s { c with kind := .f64 }
+  | none => alloc s ⟨.f64, [], []⟩
+
+/-- pinned: `np.asarray(to_numpy(x), dtype=float64)` — the SAME buffer for a float64 ndarray
+    and for a float64 tensor; repaired: `np.array(...)` — always a private copy -/
+def asF64 (v : Variant) (s : St) : Bind → Option (St × Ref)
+  | .sym _ => none
+  | .ref r =>
+    match s.heap[r]? with
+    | none => none
+    | some c =>
+      if v = .pinned ∧ (c.kind = .f64 ∨ c.kind = .t64) then some (s, r)
+      else some (alloc s { kind := .f64, shape := c.shape, data := c.data })
+
+/-- `np.asarray(x, dtype=float64).flatten()` — flatten always copies -/
+def flattenF64 (s : St) : Bind → Option (St × Ref)
+  | .sym _ => none
+  | .ref r =>
+    match s.heap[r]? with
+    | none => none
+    | some c => some (alloc s { kind := .f64, shape := [c.data.length], data := c.data })
+
+/-- `create_grad_tensor`: a fresh float32 tensor with requires_grad -/
+def gradTensor (s : St) : Bind → Option (St × Ref)
+  | .sym _ => none
+  | .ref r =>
+    match s.heap[r]? with
+    | none => none
+    | some c => some (alloc s { kind := .t32g, shape := c.shape, data := c.data })
+
+/-! ### how a probe value reaches the function -/
+
+inductive Wrap
+  | direct                                              -- call_fn(v)
+  | rebind (p : Name) (orig : Bind) (passArg : Bool)    -- p := v; try f(v) / g() finally p := orig
+  | multi (ps : List Name) (vals : List Bind) (i : Nat) -- vals[i] := v; call_fn_with_tensors(vals)
+
+/-- `call_fn_with_tensors`: bind every parameter, evaluate, restore every parameter in `finally` -/
+def invokeMulti (sc : Script) (cfg : Cfg) (ps : List Name) (tensors : List Bind) (s : St) : St × Ret :=
+  if ps.all (fun n => (lookup s.store n).isSome) then
+    let s1 : St := { s with store := setMany s.store (ps.zip tensors) }
+    let r := callF sc cfg none s1
+    ({ r.1 with store := restoreFrom s.store ps r.1.store }, r.2)
+  else (s, .exc)
+
+def invoke (sc : Script) (cfg : Cfg) : Wrap → Ref → St → St × Ret
+  | .direct, v, s => callF sc cfg (some v) s
+  | .rebind p orig passArg, v, s =>
+    let s1 : St := { s with store := set s.store p (.ref v) }
+    let r := callF sc cfg (if passArg then some v else none) s1
+    ({ r.1 with store := set r.1.store p orig }, r.2)
+  | .multi ps vals i, v, s => invokeMulti sc cfg ps (vals.set i (.ref v)) s
+
+/-- `_scalar_value` accepts the result -/
+def scalarOk : Ret → Bool
+  | .val 1 _ => true
+  | _ => false
+
+/-! ### numeric_grad -/
+
+/-- `x[idx] = d; func(x.copy())` -/
+def probe (sc : Script) (cfg : Cfg) (w : Wrap) (x : Ref) (i : Nat) (d : Int) (s : St) : St × Ret :=
+  let a := copyOf (writeAt s x i d) x
+  invoke sc cfg w a.2 a.1
+
+def gradLoop (sc : Script) (cfg : Cfg) (w : Wrap) (x : Ref) : List Nat → St → St × Bool
+  | [], s => (s, true)
+  | i :: is, s =>
+    let orig := origAt s x i
+    let r1 := probe sc cfg w x i (orig + eps) s
+    if scalarOk r1.2 then
+      let r2 := probe sc cfg w x i (orig - eps) r1.1
+      if scalarOk r2.2 then gradLoop sc cfg w x is (writeAt r2.1 x i orig)
+      else (r2.1, false)
+    else (r1.1, false)
+
+def sizeAt (s : St) (x : Ref) : Nat :=
+  match s.heap[x]? with
+  | some c => c.data.length
+  | none => 0
+
+def numericGrad (v : Variant) (sc : Script) (cfg : Cfg) (w : Wrap) (b : Bind) (s : St) : St × Bool :=
+  match asF64 v s b with
+  | none => (s, false)
+  | some (s1, x) => gradLoop sc cfg w x (List.range (sizeAt s1 x)) s1
+
+/-! ### numeric_jacobian -/
+
+def bcast (a b : Nat) : Option Nat :=
+  if a = b then some a else if a = 1 then some b else if b = 1 then some a else none
+
+/-- `jacobian[:, j] = (f_plus - f_minus) / (2*eps)` does not raise -/
+def colOk (m a b : Nat) : Bool :=
+  match bcast a b with
+  | some c => c == m || c == 1
+  | none => false
+
+/-- `c = x.copy(); c[j] = d` -/
+def copyPerturbed (s : St) (x : Ref) (j : Nat) (d : Int) : St × Ref :=
+  let a := copyOf s x
+  (writeAt a.1 a.2 j d, a.2)
+
+def jacLoop (sc : Script) (cfg : Cfg) (w : Wrap) (x : Ref) (m : Nat) : List Nat → St → St × Bool
+  | [], s => (s, true)
+  | j :: js, s =>
+    let orig := origAt s x j
+    let a := copyPerturbed s x j (orig + eps)
+    let b := copyPerturbed a.1 x j (orig - eps)
+    let r1 := invoke sc cfg w a.2 b.1
+    match r1.2 with
+    | .exc => (r1.1, false)
+    | .val n1 _ =>
+      let r2 := invoke sc cfg w b.2 r1.1
+      match r2.2 with
+      | .exc => (r2.1, false)
+      | .val n2 _ => if colOk m n1 n2 then jacLoop sc cfg w x m js r2.1 else (r2.1, false)
+
+def jacNumeric (sc : Script) (cfg : Cfg) (w : Wrap) (b : Bind) (s : St) : St × Bool :=
+  match flattenF64 s b with
+  | none => (s, false)
+  | some (s1, x) =>
+    let a := copyOf s1 x
+    let r0 := invoke sc cfg w a.2 a.1
+    match r0.2 with
+    | .exc => (r0.1, false)
+    | .val m _ => jacLoop sc cfg w x m (List.range (sizeAt r0.1 x)) r0.1
+
+/-- torch: `compute_jacobian` on a grad tensor, numeric fallback on any exception -/
+def jacTorch (sc : Script) (cfg : Cfg) (w : Wrap) (b : Bind) (s : St) : St × Bool :=
+  match gradTensor s b with
+  | none => jacNumeric sc cfg w b s
+  | some (s1, t) =>
+    let r := invoke sc cfg w t s1
+    match r.2 with
+    | .val _ true => (r.1, true)
+    | _ => jacNumeric sc cfg w b r.1
+
+def jacOf (be : Backend) (sc : Script) (cfg : Cfg) (w : Wrap) (b : Bind) (s : St) : St × Bool :=
+  match be with
+  | .numpy => jacNumeric sc cfg w b s
+  | .torch => jacTorch sc cfg w b s
+
+/-! ### the gradient forms -/
+
+inductive Form
+  | gradPoint (p : Name)          -- f:>p            grad_of_fn
+  | nablaSym (p : Name)           -- p∇f             eval_dyad_grad, `p` a symbol
+  | jacPoint (p : Name)           -- p∂f, .jacobian(f;p)   jacobian_of_fn
+  | multiGrad (ps : List Name)    -- g:>[w b ...]    multi_grad_of_fn
+  | multiJac (ps : List Name)     -- [w b ...]∂g     multi_jacobian_of_fn
+deriving DecidableEq, Repr
+
+/-- `KlongInterpreter.eval(KGSym)` -/
+def evalName (s : St) (n : Name) : St × Bind :=
+  match lookup s.store n with
+  | some b => (s, b)
+  | none => ({ s with store := set s.store n (.sym n) }, .sym n)
+
+def evalFn (cfg : Cfg) (s : St) : St :=
+  match cfg.fnUnknown with
+  | some n => (evalName s n).1
+  | none => s
+
+def mgradLoop (v : Variant) (sc : Script) (cfg : Cfg) (ps : List Name) (vals : List Bind) :
+    List Nat → St → St × Bool
+  | [], s => (s, true)
+  | i :: is, s =>
+    match vals[i]? with
+    | none => (s, false)
+    | some b =>
+      let r := numericGrad v sc cfg (.multi ps vals i) b s
+      if r.2 then mgradLoop v sc cfg ps vals is r.1 else (r.1, false)
+
+/-- `[create_grad_tensor(p) for p in params]` -/
+def gradTensors : List Bind → St → Option (St × List Bind)
+  | [], s => some (s, [])
+  | b :: bs, s =>
+    match gradTensor s b with
+    | none => none
+    | some (s1, t) =>
+      match gradTensors bs s1 with
+      | none => none
+      | some (s2, ts) => some (s2, .ref t :: ts)
+
+def mjacLoop (be : Backend) (sc : Script) (cfg : Cfg) : List (Name × Bind) → St → St × Bool
+  | [], s => (s, true)
+  | (p, val) :: rest, s =>
+    match lookup s.store p with
+    | none => (s, false)
+    | some original =>
+      let r := jacOf be sc cfg (.rebind p original false) val s
+      if r.2 then mjacLoop be sc cfg rest { r.1 with store := set r.1.store p original }
+      else (r.1, false)
+
+def runForm (v : Variant) (be : Backend) (form : Form) (sc : Script) (cfg : Cfg) (s : St) : St × Bool :=
+  let s := evalFn cfg s
+  match form with
+  | .gradPoint p =>
+    let e := evalName s p
+    match be with
+    | .numpy => numericGrad v sc cfg .direct e.2 e.1
+    | .torch =>
+      match gradTensor e.1 e.2 with
+      | none => (e.1, false)
+      | some (s1, t) =>
+        let r := callF sc cfg (some t) s1
+        (r.1, r.2 == .val 1 true)
+  | .nablaSym p =>
+    match lookup s.store p with
+    | none => (s, false)
+    | some orig => numericGrad v sc cfg (.rebind p orig true) orig s
+  | .jacPoint p =>
+    let e := evalName s p
+    jacOf be sc cfg .direct e.2 e.1
+  | .multiGrad ps =>
+    match lookupAll s.store ps with
+    | none => (s, false)
+    | some vals =>
+      match be with
+      | .numpy => mgradLoop v sc cfg ps vals (List.range ps.length) s
+      | .torch =>
+        match gradTensors vals s with
+        | none => (s, false)
+        | some (s1, ts) =>
+          let r := invokeMulti sc cfg ps ts s1
+          -- `torch.autograd.grad(y, grad_tensors)` rejects a tensor the loss never saw: with a
+          -- repeated parameter only the last of its tensors is bound when the loss runs
+          (r.1, r.2 == .val 1 true && decide ps.Nodup)
+  | .multiJac ps =>
+    match lookupAll s.store ps with
+    | none => (s, false)
+    | some vals => mjacLoop be sc cfg (ps.zip vals) s
+
+/-- one gradient expression of a program -/
+structure GradOp where
+  be : Backend
+  form : Form
+  sc : Script
+  cfg : Cfg
+
+/-- any number of gradient expressions, one after the other (returning or raising) -/
+def runOps (v : Variant) : List GradOp → St → St
+  | [], s => s
+  | op :: ops, s => runOps v ops (runForm v op.be op.form op.sc op.cfg s).1
+
+/-! ### driver -/
+
+def parseKind : String → Option Kind
+  | "pyfloat" => some .pyfloat | "pyint" => some .pyint | "f64" => some .f64 | "i64" => some .i64
+  | "t32" => some .t32 | "t64" => some .t64 | "ti64" => some .ti64 | "t32g" => some .t32g
+  | _ => none
+
+def showKind : Kind → String
+  | .pyfloat => "pyfloat" | .pyint => "pyint" | .f64 => "f64" | .i64 => "i64"
+  | .t32 => "t32" | .t64 => "t64" | .ti64 => "ti64" | .t32g => "t32g"
+
+def showCell (c : Cell) : String :=
+  s!"{showKind c.kind}/{"x".intercalate (c.shape.map toString)}/{";".intercalate (c.data.map toString)}"
+
+def parseCell (t : String) : Option Cell :=
+  match t.splitOn "/" with
+  | [k, sh, d] => do
+    let k ← parseKind k
+    let sh ← (splitOnChar sh 'x').mapM String.toNat?
+    let d ← (splitOnChar d ';').mapM String.toInt?
+    pure { kind := k, shape := sh, data := d }
+  | _ => none
+
+def showView : View → String
+  | .cell c => showCell c
+  | .sym n => "~" ++ n
+  | .dangling => "!"
+
+def showObs (o : Obs) : String :=
+  "+".intercalate ((match o.arg with | some v => showView v | none => "-") ::
+    o.globals.map fun p => match p.2 with | some v => showView v | none => "?")
+
+def parseBinding (t : String) : Option (Name × Bind) :=
+  match t.splitOn ":" with
+  | [n, r] =>
+    if r.startsWith "~" then some (n, .sym (r.drop 1).toString)
+    else r.toNat?.map fun k => (n, .ref k)
+  | _ => none
+
+def parseOutcome (unk : Name) : String → Option Outcome
+  | "s" => some .scalar | "v" => some .vector | "p" => some .plain | "r" => some .raise
+  | "u0" => some (.unknown unk false) | "u1" => some (.unknown unk true)
+  | _ => none
+
+def scriptOf (l : List Outcome) : Script := fun k _ => l.getD k .scalar
+
+def parseForm (f : String) (ps : List Name) : Option Form :=
+  match f, ps with
+  | "grad", [p] => some (.gradPoint p)
+  | "nabla", [p] => some (.nablaSym p)
+  | "jac", [p] => some (.jacPoint p)
+  | "sysjac", [p] => some (.jacPoint p)
+  | "mgrad", _ :: _ => some (.multiGrad ps)
+  | "mjac", _ :: _ => some (.multiJac ps)
+  | _, _ => none
+
+def showFinal (s0 s : St) : String :=
+  ",".intercalate (s0.store.map fun p =>
+    match lookup s.store p.1 with
+    | none => s!"{p.1}:?"
+    | some b =>
+      let r := match b with
+        | .ref r => if r < s0.heap.length then toString r else "new"
+        | .sym _ => "new"
+      s!"{p.1}:{r}:{showView (viewB s b)}")
+
+def showNew (s0 s : St) : String :=
+  let ns := (s.store.filter fun p => (lookup s0.store p.1).isNone).map fun p =>
+    match p.2 with
+    | .sym m => if m = p.1 then p.1 else p.1 ++ "!"
+    | .ref _ => p.1 ++ "!"
+  ",".intercalate (ns.toArray.qsort (· < ·)).toList
 
 structure State where
   unit : Unit := ()
 
 def init : State := {}
 
-def handle (s : State) (_ws : List String) : State × String := (s, "bad-op")
+def handleRun (fs : List (String × String)) : Option String := do
+  let be ← match fieldD fs "be" with
+    | "numpy" => some Backend.numpy | "torch" => some Backend.torch | _ => none
+  let v ← match fieldD fs "variant" with
+    | "pinned" => some Variant.pinned | "repaired" => some Variant.repaired | _ => none
+  let form ← parseForm (fieldD fs "form") (listField fs "params")
+  let store ← (listField fs "store").mapM parseBinding
+  let heap ← (splitOnChar (fieldD fs "heap") '|').mapM parseCell
+  let script ← (listField fs "script").mapM (parseOutcome (fieldD fs "unk"))
+  let fnU := match fieldD fs "fn" with | "" => none | n => some n
+  let cfg : Cfg := { watch := listField fs "watch", fnUnknown := fnU }
+  let s0 : St := { store := store, heap := heap }
+  let r := runForm v be form (scriptOf script) cfg s0
+  let s := r.1
+  pure (s!"out={if r.2 then "ok" else "exc"} calls={s.calls} log={"|".intercalate (s.log.map showObs)} " ++
+    s!"store={showFinal s0 s} heap={"|".intercalate ((s.heap.take s0.heap.length).map showCell)} new={showNew s0 s}")
+
+def handle (s : State) (ws : List String) : State × String :=
+  match ws with
+  | "run" :: rest =>
+    match handleRun (fields rest) with
+    | some r => (s, r)
+    | none => (s, "bad-op")
+  | _ => (s, "bad-op")
 
 end Klong.C07
